@@ -624,6 +624,7 @@ impl C08 {
         let cyclic = r.chance(1, 8);
         let mut o = WlOpts::default();
         o.bad_expectations = true;
+        o.tf_bias = 4;
         o.gen = GenOpts { adversarial, cyclic, allow_now: true, ..Default::default() };
         let mut wl = gen_workload(&mut r, &o);
         // unique rule names per rules file, for attribution
